@@ -176,6 +176,22 @@ func TestC14(t *testing.T) {
 				add("type-Symlink-typelast/"+lc, "linkmap", gen.Encode(rr, gen.Msg{Type: 4, HasData: true, Data: []byte("t")}, gen.Pres{Kind: "reversed"}), true, ls, names, "symlink, type field last")
 				add("type-out-of-range-9-typelast/"+lc, "error", gen.Encode(rr, gen.Msg{Type: 9, FileSize: gen.U64(1)}, gen.Pres{Kind: "reversed"}), true, ls, names, "unknown type, type field last")
 			}
+			// typed nodes whose Data carries fields this library does not know (a later UnixFS revision, a
+			// vendor extension): unknown fields are skipped, the type still decides
+			for xi, ext := range [][]byte{{0x78, 0x01}, {0xA2, 0x06, 0x02, 'x', 'y'}, {0xFD, 0x07, 1, 2, 3, 4}} {
+				wrap := func(m []byte) []byte {
+					if xi%2 == 0 {
+						return append(append([]byte(nil), m...), ext...)
+					}
+					return append(append([]byte(nil), ext...), m...)
+				}
+				t1, t2, t0, t5, t9 := pb.Data_Directory, pb.Data_File, pb.Data_Raw, pb.Data_HAMTShard, pb.Data_DataType(9)
+				add(fmt.Sprintf("unknown-field-%d/type-Directory", xi), "map", wrap(mustMarshal(&pb.Data{Type: &t1})), true, nil, nil, "directory with an unknown field")
+				add(fmt.Sprintf("unknown-field-%d/type-File", xi), "bytes", wrap(mustMarshal(&pb.Data{Type: &t2, Data: []byte("inline"), Filesize: proto.Uint64(6)})), true, nil, nil, "file with an unknown field")
+				add(fmt.Sprintf("unknown-field-%d/type-Raw", xi), "bytes", wrap(mustMarshal(&pb.Data{Type: &t0, Data: []byte("inline")})), true, nil, nil, "raw with an unknown field")
+				add(fmt.Sprintf("unknown-field-%d/shard-f8", xi), "map", wrap(mustMarshal(&pb.Data{Type: &t5, HashType: proto.Uint64(0x22), Fanout: proto.Uint64(8), Data: []byte{}})), true, nil, nil, "shard with an unknown field")
+				add(fmt.Sprintf("unknown-field-%d/type-out-of-range-9", xi), "error", wrap(mustMarshal(&pb.Data{Type: &t9})), true, nil, nil, "unknown type with an unknown field")
+			}
 			add("type-File-typelast/nolinks", "bytes", gen.Encode(rr, gen.Msg{Type: 2, HasData: true, Data: []byte("inline"), FileSize: gen.U64(6)}, gen.Pres{Kind: "reversed"}), true, nil, nil, "file, type field last")
 			add("type-Raw-typelast/nolinks", "bytes", gen.Encode(rr, gen.Msg{Type: 0, HasData: true, Data: []byte("inline")}, gen.Pres{Kind: "reversed"}), true, nil, nil, "raw, type field last")
 			add("shard/valid-f8-typelast", "map", gen.Encode(rr, gen.Msg{Type: 5, HashType: gen.U64(0x22), Fanout: gen.U64(8), HasData: true, Data: []byte{}}, gen.Pres{Kind: "reversed"}), true, nil, nil, "shard, type field last")
